@@ -120,7 +120,7 @@ Proof.
   - inversion H; subst; clear H; cbn. split; [fin|auto].
   - destruct po; [|discriminate]. inversion H; subst; clear H; cbn. split; [fin|auto].
   - destruct (po && negb pr); [|discriminate]. inversion H; subst; clear H; cbn. split; [fin|auto].
-  - destruct (rl && negb rc && co && po); [|discriminate]. inversion H; subst; clear H; cbn. split; [fin|auto].
+  - destruct po; [|discriminate]. destruct (rl && negb rc && co); inversion H; subst; clear H; cbn; (split; [fin|auto]).
   - destruct (match k with RHandlerErr | RPanic => po | _ => true end); [|discriminate].
     inversion H; subst; clear H; cbn. split; [fin|auto].
   - inversion H; subst; clear H; cbn. split; [fin|auto].
